@@ -47,6 +47,19 @@ func runC12Stream(ops []c12Op) (trace []string, finalClosed []int, findings []Mo
 	var order []int
 	delivered := map[int]bool{}
 	var accepted []transport.StreamConn
+	openN := 0
+	// right after the close of the last open handle the address must be bindable again (tested at
+	// once: later the port may have been taken by an unrelated socket of a parallel case)
+	rebind := func() {
+		if openN != 0 {
+			return
+		}
+		if l, err := net.Listen("tcp", addr); err != nil {
+			findings = append(findings, MonitorFinding{"C12/socket-not-released", "the address cannot be bound again after the last close: " + err.Error(), ops})
+		} else {
+			l.Close()
+		}
+	}
 	poll := func(wait time.Duration) {
 		deadline := time.Now().Add(wait)
 		for {
@@ -104,6 +117,7 @@ func runC12Stream(ops []c12Op) (trace []string, finalClosed []int, findings []Mo
 				continue
 			}
 			handles = append(handles, h)
+			openN++
 			trace = append(trace, fmt.Sprintf("OAcquire %d", len(handles)-1))
 		case "dial":
 			c, err := net.DialTimeout("tcp", addr, 300*time.Millisecond)
@@ -150,6 +164,10 @@ func runC12Stream(ops []c12Op) (trace []string, finalClosed []int, findings []Mo
 				continue
 			}
 			handles[op.H].Close()
+			if !closedH[op.H] {
+				openN--
+				rebind()
+			}
 			closedH[op.H] = true
 			trace = append(trace, fmt.Sprintf("OClose %d", op.H))
 		}
@@ -160,6 +178,8 @@ func runC12Stream(ops []c12Op) (trace []string, finalClosed []int, findings []Mo
 		if !closedH[h] {
 			handles[h].Close()
 			closedH[h] = true
+			openN--
+			rebind()
 			trace = append(trace, fmt.Sprintf("OClose %d", h))
 			poll(10 * time.Millisecond)
 		}
@@ -177,13 +197,6 @@ func runC12Stream(ops []c12Op) (trace []string, finalClosed []int, findings []Mo
 			finalClosed = append(finalClosed, port)
 		case <-time.After(300 * time.Millisecond):
 			findings = append(findings, MonitorFinding{"C12/orphan-conn-hanging", "a connection that reached the socket was neither delivered to a handle nor closed after the last handle was closed", ops})
-		}
-	}
-	if len(handles) > 0 {
-		if l, err := net.Listen("tcp", addr); err != nil {
-			findings = append(findings, MonitorFinding{"C12/socket-not-released", "the address cannot be bound again after the last close: " + err.Error(), ops})
-		} else {
-			l.Close()
 		}
 	}
 	for _, c := range accepted {
@@ -280,6 +293,9 @@ func runC12Packet(r *Rng) (findings []MonitorFinding, stats map[string]int) {
 		findings = append(findings, MonitorFinding{"C12/packet-duplicated", fmt.Sprintf("%d datagrams delivered to more than one handle", dups), nil})
 	}
 	stats["packet:datagrams-received"] = len(got)
+	if len(got) < 40 {
+		findings = append(findings, MonitorFinding{"C12/packet-lost-while-handle-reads", fmt.Sprintf("%d of 40 datagrams were received by the open handles", len(got)), nil})
+	}
 	if l, err := net.ListenPacket("udp", addr); err != nil {
 		findings = append(findings, MonitorFinding{"C12/packet-socket-not-released", err.Error(), nil})
 	} else {
@@ -300,8 +316,9 @@ func c12(ctx *Ctx) {
 		trace    []string
 		closed   []int
 		findings []MonitorFinding
+		packet   bool
 	}
-	jobs := make([]*job, n)
+	jobs := make([]*job, n+n/2)
 	for i := range jobs {
 		nops := r.Range(3, 14)
 		var ops []c12Op
@@ -320,7 +337,27 @@ func c12(ctx *Ctx) {
 				ops = append(ops, c12Op{Kind: "close", H: r.Intn(nh)})
 			}
 		}
-		jobs[i] = &job{ops: ops}
+		if r.Chance(35) {
+			// hand-over shape: several handles with calls pending, one of them closes, then traffic
+			k := r.Range(2, 4)
+			ops = nil
+			for h := 0; h < k; h++ {
+				ops = append(ops, c12Op{Kind: "acquire"})
+			}
+			for h := 0; h < k; h++ {
+				if r.Chance(85) {
+					ops = append(ops, c12Op{Kind: "accept", H: h})
+				}
+			}
+			ops = append(ops, c12Op{Kind: "close", H: r.Intn(k)})
+			for j := r.Range(1, 4); j > 0; j-- {
+				ops = append(ops, c12Op{Kind: "dial"})
+				if r.Bool() {
+					ops = append(ops, c12Op{Kind: "accept", H: r.Intn(k)})
+				}
+			}
+		}
+		jobs[i] = &job{ops: ops, packet: i >= n} // the last third runs on the packet side
 	}
 	var wg sync.WaitGroup
 	sem := make(chan struct{}, 12)
@@ -330,7 +367,11 @@ func c12(ctx *Ctx) {
 		go func(j *job) {
 			defer wg.Done()
 			defer func() { <-sem }()
-			j.trace, j.closed, j.findings = runC12Stream(j.ops)
+			if j.packet {
+				j.trace, j.closed, j.findings = runC12PacketTrace(j.ops)
+			} else {
+				j.trace, j.closed, j.findings = runC12Stream(j.ops)
+			}
 		}(j)
 	}
 	wg.Wait()
@@ -342,18 +383,26 @@ func c12(ctx *Ctx) {
 			ctx.Monitor(f.Signature, f.What, f.Case)
 		}
 		for _, op := range ops {
-			ctx.Count("op:" + op.Kind)
+			if j.packet {
+				ctx.Count("packet-op:" + op.Kind)
+			} else {
+				ctx.Count("op:" + op.Kind)
+			}
 		}
 		nd := 0
 		for _, t := range trace {
 			if len(t) > 8 && t[:8] == "ODeliver" {
 				nd++
-				ctx.Count("delivered")
+				if j.packet {
+					ctx.Count("packet-delivered")
+				} else {
+					ctx.Count("delivered")
+				}
 			}
 		}
 		ctx.CountN("server-closed-undelivered", len(finalClosed))
 		if nd > 0 {
-			ctx.NonTrivial(fmt.Sprint(ops))
+			ctx.NonTrivial(fmt.Sprint(j.packet, ops))
 		}
 		var fc []string
 		for _, c := range finalClosed {
